@@ -19,8 +19,10 @@ run_demo() {  # $1 = label
 if ! git apply $V/patch.diff >>$LOG 2>&1; then echo "$V: PATCH-DOES-NOT-APPLY"; exit 1; fi
 if ! cargo build --release --offline >>$LOG 2>&1; then echo "$V: DOES-NOT-BUILD"; git checkout -q -- .; exit 1; fi
 echo "== tests with change" >>$LOG
+if [ -n "$REUSE_TEST_LOG" ] && grep -q "^test result" $V/tests_with_change.log 2>/dev/null; then echo "(reusing test log of an earlier confirmation run)" >>$LOG; else
 cargo test --offline -- --test-threads 4 --skip perft5_kiwipete --skip perft6_position_4 --skip perft7_position_3 >$V/tests_with_change.log 2>&1
-FAILED=$(grep -E "^test .* FAILED" $V/tests_with_change.log | grep -v "chess::tests::fen_startpos" | wc -l)
+fi
+FAILED=$(grep -E "^test [A-Za-z0-9_:]+ \.\.\. FAILED" $V/tests_with_change.log | grep -v "chess::tests::fen_startpos" | wc -l)
 PASSED=$(grep -cE "^test .* ok$" $V/tests_with_change.log)
 echo "== demo with change" >>$LOG
 run_demo with; D_WITH=$?
